@@ -440,9 +440,15 @@ fn op_authorize(world: &J, op: &J) -> R<J> {
     // the three entry points of one FFI call (JSON value, JSON string, typed) must present one answer;
     // a disagreement is recorded as ["split"], which no specification answer equals
     let via_str: J = ffi::is_authorized_json_str(&call.to_string()).ok().and_then(|s| serde_json::from_str(&s).ok()).unwrap_or(J::Null);
+    // the partial-authorization entry point, given the same fully concrete call, must reach the same decision
+    let partial: J = match ffi::is_authorized_partial_json(call.clone()) {
+        Ok(a) if a["type"] == "residuals" => json!(["ok", match a["response"]["decision"].as_str() { Some("allow") => "Allow", Some("deny") => "Deny", _ => "none" }]),
+        Ok(_) => fail(),
+        Err(_) => json!(["reject"]),
+    };
     let via_typed: J = match serde_json::from_value::<ffi::AuthorizationCall>(call) { Ok(c) => serde_json::to_value(ffi::is_authorized(c)).unwrap_or(J::Null), Err(_) => J::Null };
     let f = if project_ffi_authz(&via_str) == project_ffi_authz(&ans) && project_ffi_authz(&via_typed) == project_ffi_authz(&ans) && via_str["type"] == ans["type"] && via_typed["type"] == ans["type"] { project_ffi_authz(&ans) } else { json!(["split"]) };
-    Ok(json!({"ffi": f, "api": api_authorize(world, k, j, validate, ri)?}))
+    Ok(json!({"ffi": f, "partial": partial, "api": api_authorize(world, k, j, validate, ri)?}))
 }
 
 fn mode_of(m: &str) -> R<ValidationMode> {
